@@ -131,6 +131,11 @@ def run_variants(prop, variants, repo, base_keys, jobs=16, keep=None):
                 else:
                     if rc == 0 and not new:
                         rec['outcome'] = 'silent'
+                    elif rc == 2 and not new and v.patch and '/benign/' in v.patch:
+                        # a whole-module refactoring the rules could not follow: "cannot be decided" (exit 2) is not an
+                        # alarm - it is recorded, and it is not a verdict either way
+                        rec['outcome'] = 'undecided'
+                        rec['why'] = 'rc=2 (analysis error, no finding) on a behaviour-preserving refactoring; %s' % (err or [''])[0][:300]
                     else:
                         rec['outcome'] = 'NOISY'
                         rec['why'] = 'rc=%d on a behaviour-preserving edit; %s' % (rc, (err or [''])[0][:300])
@@ -194,14 +199,16 @@ def run(ctx):
         'fired': sum(r['outcome'] == 'fired' for r in res),
         'silent': sum(r['outcome'] == 'silent' for r in res),
         'skipped': sum(r['outcome'] == 'skipped' for r in res),
+        'undecided': sum(r['outcome'] == 'undecided' for r in res),
         'failed': len(bad),
         'results': res,
     }
     ctx.selftest = summary
-    print('%s self-test: %d variants: %d fired, %d silent, %d skipped (site absent), %d failed' % (
-        ctx.prop, summary['variants'], summary['fired'], summary['silent'], summary['skipped'], summary['failed']))
+    print('%s self-test: %d variants: %d fired, %d silent, %d undecided (refactoring not followed, exit 2), %d skipped (site absent), '
+          '%d failed' % (ctx.prop, summary['variants'], summary['fired'], summary['silent'], summary['undecided'],
+                         summary['skipped'], summary['failed']))
     for r in res:
-        if r['outcome'] in ('MISSED', 'NOISY', 'skipped'):
+        if r['outcome'] in ('MISSED', 'NOISY', 'skipped', 'undecided'):
             print('  self-test %s %s [%s]: %s' % (r['outcome'], r['variant'], r['kind'], r.get('why', '')))
     if bad:
         raise AnalysisError('checker self-test failed on %d variant(s): %s' % (
